@@ -230,7 +230,7 @@ impl Property for P {
     fn cases(tier: Tier) -> u64 {
         match tier {
             Tier::Quick => 400,
-            Tier::Thorough => 6_000,
+            Tier::Thorough => 12_000,
         }
     }
     fn chunk(_t: Tier) -> u64 {
